@@ -62,8 +62,15 @@ static Skinny128ParallelECBVtable_t const skinny128_parallel_ecb_vec256 = {
 int skinny128_parallel_ecb_init(Skinny128ParallelECB_t *ecb)
 {
     Skinny128Key_t *ctx;
-    if ((ctx = calloc(1, sizeof(Skinny128Key_t))) == NULL)
+    if (!ecb)
         return 0;
+    if ((ctx = calloc(1, sizeof(Skinny128Key_t))) == NULL) {
+        /* Leave the object inert so that it is safe to pass to the
+           cleanup function or to any other function */
+        ecb->vtable = 0;
+        ecb->ctx = 0;
+        return 0;
+    }
     ecb->vtable = 0;
     ecb->ctx = ctx;
     ecb->parallel_size = 4 * SKINNY128_BLOCK_SIZE;
